@@ -241,6 +241,57 @@ func c01Assign(c *c01) {
 			}
 		}
 	}
+	// decorated definitions: decorators (top to bottom), then defaults, keyword-only defaults
+	// and annotations are evaluated at definition time, in that order; then the decorators
+	// are applied bottom-up
+	for _, ndec := range []int{1, 2} {
+		for _, shape := range []string{"plain", "default", "kwdefault", "both", "annotation", "class"} {
+			a := &c01asg{}
+			var decs, log []string
+			for i := 0; i < ndec; i++ {
+				l := a.next
+				decs = append(decs, "@"+a.leaf("D"))
+				log = append(log, itoa(l))
+			}
+			var src string
+			ret := "return (p, k)"
+			switch shape {
+			case "plain":
+				src = strings.Join(decs, "\n") + "\ndef g(p=5, *, k=6):\n    " + ret + "\n"
+			case "default":
+				l := a.next
+				src = strings.Join(decs, "\n") + "\ndef g(p=" + a.leaf("5") + ", *, k=6):\n    " + ret + "\n"
+				log = append(log, itoa(l))
+			case "kwdefault":
+				l := a.next
+				src = strings.Join(decs, "\n") + "\ndef g(p=5, *, k=" + a.leaf("6") + "):\n    " + ret + "\n"
+				log = append(log, itoa(l))
+			case "both":
+				l := a.next
+				src = strings.Join(decs, "\n") + "\ndef g(p=" + a.leaf("5") + ", *, k=" + a.leaf("6") + "):\n    " + ret + "\n"
+				log = append(log, itoa(l), itoa(l+1))
+			case "annotation":
+				l := a.next
+				src = strings.Join(decs, "\n") + "\ndef g(p: " + a.leaf("1") + " = " + a.leaf("5") + ", *, k=6) -> " + a.leaf("2") + ":\n    " + ret + "\n"
+				// defaults first, then annotations
+				log = append(log, itoa(l+1), itoa(l), itoa(l+2))
+			case "class":
+				l := a.next
+				src = strings.Join(decs, "\n") + "\nclass g(" + a.leaf("object") + "):\n    pass\n"
+				log = append(log, itoa(l))
+			}
+			for i := ndec - 1; i >= 0; i-- {
+				log = append(log, fmt.Sprintf("('dec',%d)", i))
+			}
+			names := map[string]string{}
+			prog := "def D(f):\n    vh.log(('dec', DN[0]))\n    DN[0] = DN[0] - 1\n    return f\nDN = [" + itoa(ndec-1) + "]\n" + src
+			if shape != "class" {
+				prog += "r = g()\n"
+				names["r"] = "(5,6)"
+			}
+			check("decorated-"+shape, prog, log, names, "")
+		}
+	}
 	// deletion targets: evaluated left to right
 	{
 		a := &c01asg{}
